@@ -467,3 +467,117 @@ def leaf_directed_tetrahedra(rng, per_leaf=6, budget=150000):
         add(P)
     hist = {k: len(v) for k, v in sorted(buckets.items(), key=lambda kv: str(kv[0]))}
     return [P for v in buckets.values() for P in v], hist
+
+
+# ----------------------------------------------------------------------------- soundness of the projections (hypothesis monitor)
+def closest_bruteforce(P):
+    """closest point of conv(P) to the origin by enumerating the faces (floats; untrusted: the result only seeds the
+    witnesses of the Coq certificate)"""
+    import itertools
+    P = np.array(P, float)
+    best = None
+    for k in range(1, len(P) + 1):
+        for idx in itertools.combinations(range(len(P)), k):
+            Q = P[list(idx)]
+            if k == 1:
+                lam = np.array([1.0])
+            else:
+                A = np.vstack([np.hstack([Q @ Q.T, np.ones((k, 1))]), np.hstack([np.ones((1, k)), [[0.0]]])])
+                b = np.zeros(k + 1)
+                b[-1] = 1.0
+                try:
+                    lam = np.linalg.solve(A, b)[:k]
+                except np.linalg.LinAlgError:
+                    continue
+            if (lam >= 0).all():
+                x = lam @ Q
+                if best is None or np.linalg.norm(x) < best[0]:
+                    best = (float(np.linalg.norm(x)), x)
+    return best
+
+
+def gjk_state_tetrahedra(rng, per_leaf=4, budget=60000):
+    """tetrahedra (d, c, b, a) in a state GJK can hand to project_tetra_to_origin: the closest point of triangle (d, c, b) to
+    the origin is in its interior (the previous projection returned all three rows), the rows are in the order
+    origin_to_triangle leaves them in (cross(c - b, d - b) . (-b) > 0), and the new vertex a strictly improves
+    (a . ray < ray . ray); bucketed by tetra_leaf, `per_leaf` each.  Generation guidance only."""
+    buckets = {}
+    for _ in range(budget):
+        sc = rng.choice([0.3, 1.0, 3.0])
+        off = [rng.gauss(0, 1) * rng.choice([0.5, 2.0, 4.0]) for _ in range(3)]
+        T = np.array([[rng.gauss(0, 1) * sc + off[k] for k in range(3)] for _ in range(3)])
+        d, c, b = T
+        if float(np.cross(c - b, d - b) @ (-b)) <= 0:
+            d, c = c, d
+        n = np.cross(c - d, b - d)
+        nn = float(n @ n)
+        if nn < 1e-6 * sc ** 4:
+            continue
+        ray = n * float(n @ d) / nn                              # foot of the origin on the plane
+        # barycentric coordinates of the foot: must be well inside
+        M = np.vstack([np.array([d, c, b]).T, np.ones(3)])
+        lam, *_ = np.linalg.lstsq(M, np.append(ray, 1.0), rcond=None)
+        if not (lam > 0.02).all():
+            continue
+        a = np.array([rng.gauss(0, 1) * rng.choice([0.3, 1.0, 3.0]) + rng.gauss(0, 1) * rng.choice([0.0, 0.5, 2.0]) for _ in range(3)])
+        if not float(a @ ray) < float(ray @ ray) * (1 - 1e-3) - 1e-3:
+            continue
+        P = [d.tolist(), c.tolist(), b.tolist(), a.tolist()]
+        lf = tetra_leaf(*[tuple(p) for p in P])
+        bk = buckets.setdefault(lf, [])
+        if len(bk) < per_leaf:
+            bk.append(P)
+    return [P for v in buckets.values() for P in v], {str(k): len(v) for k, v in sorted(buckets.items(), key=lambda kv: str(kv[0]))}
+
+
+def projection_soundness(pid, rng, per_leaf=4, budget=15000, tag="projsound"):
+    """Monitor of the invariant C09_nesterov_converged_exit_partial assumes ("the current ray is a point of the simplex" - and, for
+    GJK to converge, its closest point): on tetrahedra in GJK-reachable states, directed at every leaf, |ray| returned by both
+    modules' project_tetra_to_origin must be the distance of conv(simplex) from the origin - judged by the Coq certificate
+    dist_values_cert on the shape expressions Hull(simplex) and {0} (tau = 1e-6 * size).  Returns (stats, failures)."""
+    from . import narrow as nw
+    from . import narrow_bool as nb
+    tets, hist = gjk_state_tetrahedra(rng, per_leaf, budget)
+    res = cm.run_impl_parallel(pid, "narrowbproj", [dict(simplices=tets, trace_lines=False)], timeout=900, tag=tag)
+    if res[0]["status"] != "ok":
+        raise RuntimeError(f"projection worker failed: {res[0].get('log', '')[-300:]}")
+    impl = res[0]["result"]["results"]
+    origin = dict(kind="hull", vertices=[[0.0, 0.0, 0.0]])
+    exprs, meta = [], []
+    stats = dict(tetrahedra=len(tets), leaves=len(hist), leaf_histogram=hist, judged=0, accepted=0, enclosure_not_certified=0)
+    for P, o in zip(tets, impl):
+        best = closest_bruteforce(P)
+        if best is None:
+            continue
+        g, x = best
+        size = float(np.max(np.abs(np.array(P))))
+        spec = dict(kind="hull", vertices=P)
+        vals, names = [], []
+        for name in ("generic", "prim"):
+            r = o[name]
+            if "exc" in r:
+                continue
+            vals.append(0.0 if r["inside"] else float(np.linalg.norm(np.array(r["ray"]))))
+            names.append(name)
+        eps = 1e-7 * size
+        lo, up = max(0.0, g - eps), g + eps
+        n = (-x).tolist() if g > 1e-12 * size else [1.0, 0.0, 0.0]
+        A, B = nw.sh_expr(spec), nw.sh_expr(origin)
+        wa, wb = nw.wit_expr(spec, x.tolist()), nw.wit_expr(origin, [0.0, 0.0, 0.0])
+        exprs.append(f"enclosure_cert {A} {B} {wa} {wb} {nw.vq(n)} {nw._q(lo)} {nw._q(up)}")
+        exprs.append(f"dist_values_cert {A} {B} {wa} {wb} {nw.vq(n)} {nw._q(lo)} {nw._q(up)} "
+                     f"[{'; '.join(nw._q(v) for v in vals)}] {nw._q(1e-6 * size)}")
+        meta.append((P, names, vals, g))
+    outs = nb.coq_eval_retry(pid, nb.COQ_HEADER, exprs, tag, 60, ["theories/Props/C09.vo"])
+    fails = []
+    for k, (P, names, vals, g) in enumerate(meta):
+        enc, ok = outs[2 * k].strip() == "true", outs[2 * k + 1].strip() == "true"
+        if not enc:
+            stats["enclosure_not_certified"] += 1
+            continue
+        stats["judged"] += 1
+        if ok:
+            stats["accepted"] += 1
+        else:
+            fails.append((P, dict(zip(names, vals)), g, tetra_leaf(*[tuple(p) for p in P])))
+    return stats, fails
